@@ -32,7 +32,9 @@ def gen_case(rng, tier, op=None):
     spec["cols"].append({"name": "v", "kind": "float", "vals": [rng.choice([1.0, 2.0, 2.5, -1.0, 4.0, "nan"]) for _ in range(spec["n"])]})
     case = {"op": op or rng.choice(OPS), "frame": spec, "by": by}
     if case["op"] == "shorthand":
-        case["helper"] = rng.choice(["count", "first", "last", "sum", "min", "max", "mean", "nth1", "nth-1", "nth-2", "nth-3", "last", "count_unique", "mode", "median", "any", "all"])
+        case["helper"] = rng.choice(["count", "first", "last", "sum", "min", "max", "mean", "nth1", "nth-1", "nth-2", "nth-3", "last", "count_unique", "mode", "median", "any", "all",
+                                     "std", "var", "std1", "var1", "std2", "var2", "mean_keep", "sum_keep", "min_keep", "std_keep", "median_keep", "first_drop", "last_drop",
+                                     "count_unique_drop", "quantile.5", "quantile.25", "quantile0", "quantile1"])
     return case
 
 
@@ -97,10 +99,29 @@ def helper_pair(name):
         "count_unique": (di.count_unique("v"), lambda x: di.count_unique(x.v)),
         "any": (di.any("v"), lambda x: di.any(x.v)),
         "all": (di.all("v"), lambda x: di.all(x.v)),
+        # helper ARGUMENTS are part of the clause: the shorthand with an argument equals the lambda with the same argument
+        "std": (di.std("v"), lambda x: di.std(x.v)),
+        "var": (di.var("v"), lambda x: di.var(x.v)),
+        "std1": (di.std("v", ddof=1), lambda x: di.std(x.v, ddof=1)),
+        "var1": (di.var("v", ddof=1), lambda x: di.var(x.v, ddof=1)),
+        "std2": (di.std("v", ddof=2), lambda x: di.std(x.v, ddof=2)),
+        "var2": (di.var("v", ddof=2), lambda x: di.var(x.v, ddof=2)),
+        "mean_keep": (di.mean("v", drop_na=False), lambda x: di.mean(x.v, drop_na=False)),
+        "sum_keep": (di.sum("v", drop_na=False), lambda x: di.sum(x.v, drop_na=False)),
+        "min_keep": (di.min("v", drop_na=False), lambda x: di.min(x.v, drop_na=False)),
+        "std_keep": (di.std("v", drop_na=False), lambda x: di.std(x.v, drop_na=False)),
+        "median_keep": (di.median("v", drop_na=False), lambda x: di.median(x.v, drop_na=False)),
+        "first_drop": (di.first("v", drop_na=True), lambda x: di.first(x.v, drop_na=True)),
+        "last_drop": (di.last("v", drop_na=True), lambda x: di.last(x.v, drop_na=True)),
+        "count_unique_drop": (di.count_unique("v", drop_na=True), lambda x: di.count_unique(x.v, drop_na=True)),
+        "quantile.5": (di.quantile("v", 0.5), lambda x: di.quantile(x.v, 0.5)),
+        "quantile.25": (di.quantile("v", 0.25), lambda x: di.quantile(x.v, 0.25)),
+        "quantile0": (di.quantile("v", 0), lambda x: di.quantile(x.v, 0)),
+        "quantile1": (di.quantile("v", 1), lambda x: di.quantile(x.v, 1)),
     }[name]
 
 
-NTH_FAMILY = ("first", "last", "nth1", "nth-1", "nth-2", "nth-3", "mode")      # helpers whose value depends on the ORDER of the group's rows
+NTH_FAMILY = ("first", "last", "nth1", "nth-1", "nth-2", "nth-3", "mode", "first_drop", "last_drop")      # helpers whose value depends on the ORDER of the group's rows
 
 
 def grouped(df, by):
